@@ -1,7 +1,7 @@
 # C10 - bounded queue: back-pressure without losing or duplicating items
 import re
 from ..core import norm, relloc, live, calls, evs, Broken, value_origin, Tracer, fmt_trace, rooted, has_back_edge, cond_event
-from .. import locks
+from .. import locks, witness
 from ..rules import *
 from .tables import GUARDED
 from . import C09
@@ -24,6 +24,9 @@ def run(ctx, db, tier):
     C09.resolve_outside_lock(ctx, db, 'C10.resolve-outside-lock', ['cocls::limited_queue::push', 'cocls::limited_queue::pop', 'cocls::limited_queue::unblock_push'])
     locks.check_guarded(ctx, db, 'C10.locks', {k: v for k, v in GUARDED.items() if k.startswith(('cocls::queue::', 'cocls::limited_queue::'))}, ['cocls::limited_queue'], per_instance=True, floor=3)
     C09.forward_once(ctx, db, 'C10.forward-once')
+    if ctx.cfg == 'assert':
+        witness.positive(ctx, 'C10.item-built-alike', 'C10_pos.cpp', 'every path of queue::push / limited_queue::push (hand-over to a waiting pop, enqueue, the item held for a blocked push) builds the '
+                         'item as T(args...): explicit instantiation for an item type whose list-initialisation would select a deleted initializer-list constructor')
 
 
 def _block_lambda(db, f, ev):
